@@ -145,7 +145,7 @@ fn run_history(emu: &mut Emu, ops: &[Op]) -> Result<(usize, usize, usize), Strin
             let quiet = (op.value >> 16) % 3 == 0;
             if !quiet {
                 let tcr = 0x01 | ((op.value as u8) & 0xf8);
-                if emu.cpu.bus.write(0xffff80, tcr).is_err() {
+                if gwrite(emu, 0xffff80, tcr).is_err() {
                     result = Err(format!("op {} {:?}: the store to TCR0 failed", idx, op));
                     break;
                 }
@@ -372,18 +372,36 @@ fn ops_from_json(v: &Value) -> Option<Vec<Op>> {
 
 // ------------------------------------------------------------------ exhaustive parts
 
+/// bus accesses of the check itself: a panic is a failed access (with the message), never the end of the check
+fn gwrite(emu: &mut Emu, a: u32, v: u8) -> Result<(), String> {
+    let bus = &mut emu.cpu.bus;
+    match guarded(|| bus.write(a, v)) {
+        Ok(Ok(())) => Ok(()),
+        Ok(Err(e)) => Err(e.to_string()),
+        Err(p) => Err(format!("panic: {}", p)),
+    }
+}
+fn gread(emu: &mut Emu, a: u32) -> Result<u8, String> {
+    let bus = &mut emu.cpu.bus;
+    match guarded(|| bus.read(a)) {
+        Ok(Ok(v)) => Ok(v),
+        Ok(Err(e)) => Err(e.to_string()),
+        Err(p) => Err(format!("panic: {}", p)),
+    }
+}
+
 /// classification of addresses [lo, hi): read succeeds iff accessible; inaccessible writes fail and change nothing
 fn classify_range(emu: &mut Emu, lo: u64, hi: u64, step: u64, stats: &mut Stats) -> Result<(), (String, u32)> {
     let mut a = lo;
     while a < hi {
         let addr = a as u32;
         let acc = accessible(a);
-        let r = emu.cpu.bus.read(addr);
+        let r = gread(emu, addr);
         if r.is_ok() != acc {
             return Err((format!("read of {:08x}: {} but the address is {}", addr, if r.is_ok() { "succeeds" } else { "fails" }, if acc { "accessible" } else { "inaccessible" }), addr));
         }
         if !acc {
-            let w = emu.cpu.bus.write(addr, h(7, addr));
+            let w = gwrite(emu, addr, h(7, addr));
             if w.is_ok() {
                 return Err((format!("write to inaccessible address {:08x} succeeds", addr), addr));
             }
@@ -397,6 +415,21 @@ fn classify_range(emu: &mut Emu, lo: u64, hi: u64, step: u64, stats: &mut Stats)
 pub fn run(ctx: &Ctx) -> i32 {
     if let Some(v) = &ctx.replay {
         let case = v.get("case").unwrap_or(v);
+        if let Some(r) = replay_setup_write(case) {
+            return match r {
+                Ok(()) => {
+                    println!("replay {}: the store passes", P);
+                    0
+                }
+                Err(m) => {
+                    let f = Failure { signature: "panic in the bus write path".into(), detail: m, case: case.clone() };
+                    let p = write_replay(P, &f);
+                    println!("VIOLATION property={} replay={}", P, p.display());
+                    println!("  detail: {}", f.detail);
+                    1
+                }
+            };
+        }
         let mut emu = Emu::new(&ctx.base);
         if let Some(ops) = ops_from_json(case) {
             return match run_history(&mut emu, &ops) {
@@ -485,8 +518,8 @@ pub fn run(ctx: &Ctx) -> i32 {
                 if is_port_reg(a) {
                     continue;
                 }
-                if emu.cpu.bus.write(a, h(pass, a)).is_err() {
-                    st.fail(Failure { signature: "write to accessible address fails".into(), detail: format!("write to {:06x} failed", a), case: json!({"kind": "address", "addr": a}) });
+                if let Err(why) = gwrite(&mut emu, a, h(pass, a)) {
+                    st.fail(Failure { signature: "write to accessible address fails".into(), detail: format!("write of {:02x} to {:06x} failed: {}", h(pass, a), a, why), case: json!({"kind": "address", "addr": a}) });
                     return st;
                 }
                 n += 1;
@@ -497,7 +530,7 @@ pub fn run(ctx: &Ctx) -> i32 {
                 if is_port_reg(a) {
                     continue;
                 }
-                match emu.cpu.bus.read(a) {
+                match gread(&mut emu, a) {
                     Ok(v) if v == h(pass, a) => {}
                     other => {
                         st.fail(Failure {
@@ -571,5 +604,8 @@ pub fn run(ctx: &Ctx) -> i32 {
     let rule = "cases = (1) every address 0..2^24 through Bus::read / Bus::write (accessible iff inside one of the statement's five ranges; inaccessible -> both fail and nothing changes), boundary and strided addresses up to 2^32-1 and aliases of every region with bits 24-31 set; (2) three passes that write an independent 8-bit hash of its address to every plain storage byte (everything accessible except port DDR/DR) and read all of them back afterwards (lost or aliased storage shows up as a mismatch); (3) proptest-generated histories of up to 60 byte/word/long loads and stores executed as real MOV @aa:24 instructions, addresses weighted to +/-6 of all ten region edges and to overlapping extents, against a byte-map model (big-endian composition, failing accesses change nothing outside their own extent, final memory == model). Histories also interleave instruction fetches (1 op in 7): from an inaccessible or >= 2^24 address the fetch must fail, change no register and write nothing - and everything after it must still work; from an accessible word the fetch must see the MOV.W R0,R0 that the data path stored there just before. Non-trivial (histories) = contains a read overlapping an earlier write of a different extent or an access within 4 bytes of a region edge; distinct by the op sequence; the exhaustive parts are counted by a strided subset of their addresses.";
     let mut extra = Map::new();
     extra.insert("masked_details".into(), json!(["whether the accessible leading bytes of a word/long store that runs off a region are written (the statement does not demand atomicity)"]));
+    if let Some(f) = setup_panic_failure() {
+        stats.fail(f);
+    }
     finish(ctx, P, stats, rule, vec!["port DDR/DR registers are excluded (C16); no peripheral runs during the check (update_modules is never called)".into()], extra)
 }
